@@ -419,6 +419,42 @@ type Variant struct {
 	Tokens [][]byte // multi-byte units of this format (delimiters, escape pairs)
 	// MultiLine: records span several lines that alias the bufio buffer: more large inputs
 	MultiLine bool
+	// FaultGuard (C16 only): if set, the main stream uses un-damaged inputs of this variant and only
+	// fault positions for which it returns true (known finding F27 lives outside the guard).
+	FaultGuard func(in []byte, pos int) bool
+}
+
+// hfGuard is the guard of known finding F27 (old fixed-length reader, by_header_footer): the fault
+// is between lines, or the torn line still matches what the whole line matched (the fault is not
+// inside the first three bytes "BEG"/"HDR" of a line that starts an envelope).
+func hfGuard(in []byte, pos int) bool {
+	if pos >= len(in) {
+		return true
+	}
+	start := bytes.LastIndexByte(in[:pos], '\n') + 1
+	off := pos - start
+	line := in[start:]
+	if off == 0 || off >= 3 {
+		return true
+	}
+	return !(bytes.HasPrefix(line, []byte("BEG")) || bytes.HasPrefix(line, []byte("HDR")))
+}
+
+// hfGen generates header/footer envelopes with three-byte markers: an optional HDR line, then
+// BEG / L1..Lk / END groups.
+func hfGen(r *vh.Rng, n int) []byte {
+	var sb strings.Builder
+	if r.Chance(0.6) {
+		sb.WriteString("HDRhead\n")
+	}
+	for k := 0; k < n; k++ {
+		fmt.Fprintf(&sb, "BEG%s %s\n", pad(word(r), 6), pad(word(r), 4))
+		for l, m := 1, r.Between(1, 3); l <= m; l++ {
+			fmt.Fprintf(&sb, "L%d%s%s\n", l, pad(numOrBad(r), 5), pad(word(r), r.Between(0, 12)))
+		}
+		fmt.Fprintf(&sb, "END%s\n", pad(word(r), 6))
+	}
+	return []byte(sb.String())
 }
 
 // local copies of the vh fixture word generators
@@ -492,6 +528,26 @@ func Variants() []Variant {
 			out = append(out, Variant{Name: "csv+replacequotes", FmtIdx: i,
 				Schema: strings.Replace(f.Schema, `"delimiter": ",",`, `"delimiter": ",", "replace_double_quotes": true,`, 1), Gen: f.Gen})
 		case "csv2":
+			hfc := `{"parser_settings": { "version": "omni.2.1", "file_format_type": "csv2" }, "file_declaration": { "delimiter": "|", "records": [
+  { "name": "H", "header": "^HDR", "min": 0, "max": 1 },
+  { "name": "R", "header": "^BEG", "footer": "^END", "is_target": true, "columns": [
+  {"name":"a","index":2,"line_pattern":"^BEG"}, {"name":"b","index":2,"line_pattern":"^L1"}, {"name":"c","index":2,"line_pattern":"^END"} ] } ] }, ` +
+				`"transform_declarations": { "FINAL_OUTPUT": { "object": { "a": { "xpath": "a" }, "b": { "xpath": "b", "type": "int" }, "c": { "xpath": "c", "keep_empty_or_null": true } } } }}`
+			out = append(out, Variant{Name: "csv2+headerfooter", FmtIdx: i, Schema: hfc,
+				Gen: func(r *vh.Rng, n int) []byte {
+					var sb strings.Builder
+					if r.Chance(0.6) {
+						sb.WriteString("HDR|head\n")
+					}
+					for k := 0; k < n; k++ {
+						fmt.Fprintf(&sb, "BEG|%s\n", word(r))
+						for l, m := 1, r.Between(1, 3); l <= m; l++ {
+							fmt.Fprintf(&sb, "L%d|%s|%s\n", l, numOrBad(r), word(r))
+						}
+						fmt.Fprintf(&sb, "END|%s\n", word(r))
+					}
+					return []byte(sb.String())
+				}})
 			out = append(out, Variant{Name: "csv2+replacequotes", FmtIdx: i,
 				Schema: strings.Replace(f.Schema, `"delimiter": "|",`, `"delimiter": "|", "replace_double_quotes": true,`, 1),
 				Gen: func(r *vh.Rng, n int) []byte {
@@ -504,7 +560,22 @@ func Variants() []Variant {
 					}
 					return b
 				}})
+		case "fixed-length":
+			// old fixed-length reader with by_header_footer envelopes
+			hfo := `{"parser_settings": { "version": "omni.2.1", "file_format_type": "fixed-length" }, "file_declaration": { "envelopes": [
+  { "name": "H", "by_header_footer": { "header": "^HDR", "footer": "^HDR" }, "not_target": true },
+  { "name": "R", "by_header_footer": { "header": "^BEG", "footer": "^END" }, "columns": [
+  {"name":"a","start_pos":4,"length":6,"line_pattern":"^BEG"}, {"name":"b","start_pos":3,"length":5,"line_pattern":"^L1"}, {"name":"c","start_pos":4,"length":6,"line_pattern":"^END"} ] } ] }, ` +
+				`"transform_declarations": { "FINAL_OUTPUT": { "object": { "a": { "xpath": "a" }, "b": { "xpath": "b", "type": "int" }, "c": { "xpath": "c", "keep_empty_or_null": true } } } }}`
+			out = append(out, Variant{Name: "fixed-length+headerfooter", FmtIdx: i, Schema: hfo, MultiLine: true, Gen: hfGen, FaultGuard: hfGuard})
 		case "fixedlength2":
+			// the same envelopes through the flatfile hierarchy reader (buffers lines; an unmatched line is "unexpected data")
+			hf3 := `{"parser_settings": { "version": "omni.2.1", "file_format_type": "fixedlength2" }, "file_declaration": { "envelopes": [
+  { "name": "H", "header": "^HDR", "min": 0, "max": 1 },
+  { "name": "R", "header": "^BEG", "footer": "^END", "is_target": true, "columns": [
+  {"name":"a","start_pos":4,"length":6,"line_pattern":"^BEG"}, {"name":"b","start_pos":3,"length":5,"line_pattern":"^L1"}, {"name":"c","start_pos":4,"length":6,"line_pattern":"^END"} ] } ] }, ` +
+				`"transform_declarations": { "FINAL_OUTPUT": { "object": { "a": { "xpath": "a" }, "b": { "xpath": "b", "type": "int" }, "c": { "xpath": "c", "keep_empty_or_null": true } } } }}`
+			out = append(out, Variant{Name: "fixedlength2+headerfooter3", FmtIdx: i, Schema: hf3, MultiLine: true, Gen: hfGen})
 			// two-row envelopes: the first line of an envelope stays in linesBuf (aliasing the
 			// bufio buffer unless copied) while the second one is read
 			rows2 := `{"parser_settings": { "version": "omni.2.1", "file_format_type": "fixedlength2" }, "file_declaration": { "envelopes": [
@@ -590,6 +661,18 @@ type Input struct {
 func GenInput(r *vh.Rng, v Variant) (in []byte, kind string) {
 	x := GenInput2(r, v)
 	return x.In, x.Kind
+}
+
+// GenInputForFaults is GenInput2 for C16: variants with a FaultGuard get un-damaged inputs.
+func GenInputForFaults(r *vh.Rng, v Variant) Input {
+	if v.FaultGuard == nil {
+		return GenInput2(r, v)
+	}
+	n, size := r.Between(0, 8), "small"
+	if r.Chance(0.15) {
+		n, size = r.Between(60, 200), "large"
+	}
+	return Input{In: v.Gen(r, n), Kind: size + "/wellformed(guard)"}
 }
 
 func GenInput2(r *vh.Rng, v Variant) Input {
